@@ -1,9 +1,1502 @@
-//! C12 — (module under construction)
-use crate::report::{Coverage, Reporter};
-use serde_json::Value;
+//! C12 — codepoint/byte conversion is exact and tuning knobs never change answers.
+//!
+//! Three bounded-exhaustive sweeps (no sampling):
+//!
+//! * **A (conversion)**: every text over an alphabet of 1-4 byte codepoints up to a length, under every
+//!   milestone interval in {0,1,2,3,7,100} x shrink_to_fit off/on x every set of at most two annotated ranges
+//!   (they populate the position index), `utf8byte(p)` for every position and `utf8byte_to_charpos(b)` for every
+//!   byte offset up to two past the end of the *resource*, on the resource, on every sub-selection
+//!   (`ResultTextSelection`) and, for annotated ranges, on the separate `ResultItem<TextSelection>` receiver.
+//!   Oracle: naive counting with `char_indices`; `Err` beyond the receiver's text and inside a codepoint; the
+//!   round trip is the identity on 0..=len.
+//! * **B (knobs, differential)**: for small stores (text x set of at most two annotated ranges) a fixed battery of
+//!   observations is computed under all 24 configurations (6 intervals x shrink x {built directly, loaded from
+//!   STAM JSON}) and compared with the same battery under the default configuration. No expected value is
+//!   written by hand. A difference is attributed to the *minimal* set of changed knobs that shows it.
+//! * **C (knobs over histories)**: every state of the history exploration (engine `hist`, as C01) is rebuilt by
+//!   replaying its history under each milestone interval, and its JSON serialisation is loaded under every
+//!   (interval, shrink_to_fit) pair; operation outcomes, abstract content and annotation texts must not change.
 
-pub fn run(_rep: &Reporter) -> Coverage {
-    Coverage::default()
+use crate::c01::plans;
+use crate::hist::{explore, history_from_json, history_json, Oracle, Trans};
+use crate::ops::{apply_real, Op, Outcome};
+use crate::report::{Coverage, Reporter, Tier};
+use crate::ser::{diff_ser, ser_abstract};
+use crate::util::{all_ranges, catch, msg_class};
+use rayon::prelude::*;
+use serde_json::{json, Value};
+use stam::*;
+use std::collections::{BTreeMap, BTreeSet, HashMap};
+use std::sync::atomic::{AtomicU64, Ordering};
+use std::sync::OnceLock;
+
+type R = (usize, usize);
+
+/// a (1 byte), A (1), space (1), é (2 bytes), 𝄞 (4 bytes), İ (2 bytes), ẞ (3 bytes) — the alphabet of C07
+const SIGMA: [char; 7] = ['a', 'A', ' ', '\u{e9}', '\u{1d11e}', '\u{130}', '\u{1e9e}'];
+/// one representative per UTF-8 width: a (1), é (2), ẞ (3), 𝄞 (4)
+const WIDTHS: [char; 4] = ['a', '\u{e9}', '\u{1e9e}', '\u{1d11e}'];
+/// 1, 2 and 4 bytes
+const TRIO: [char; 3] = ['a', '\u{e9}', '\u{1d11e}'];
+const INTERVALS: [usize; 6] = [0, 1, 2, 3, 7, 100];
+/// hard cap on the number of items drawn from any library iterator
+const CAP: usize = 64;
+
+// ------------------------------------------------------------------------------------------------
+// configurations and store construction
+
+#[derive(Clone, Copy, Debug, PartialEq, Eq, Hash, PartialOrd, Ord)]
+struct Cfg {
+    interval: usize,
+    shrink: bool,
+    /// false: store built through the API under this configuration (shrink_to_fit on = flag set and
+    /// `AnnotationStore::shrink_to_fit(true)` called after building, which is what the loaders do when the flag is on);
+    /// true: store built under the default configuration, serialised to STAM JSON and loaded with this configuration
+    json: bool,
 }
 
-pub fn replay(_rep: &Reporter, _case: &Value) {}
+const DEFAULT: Cfg = Cfg { interval: 100, shrink: true, json: false };
+
+impl Cfg {
+    fn config(&self) -> Config {
+        Config::default().with_milestone_interval(self.interval).with_shrink_to_fit(self.shrink)
+    }
+    fn to_json(&self) -> Value {
+        json!({"milestone_interval": self.interval, "shrink_to_fit": self.shrink, "loaded_from_json": self.json})
+    }
+    fn from_json(v: &Value) -> Cfg {
+        Cfg {
+            interval: v["milestone_interval"].as_u64().unwrap_or(100) as usize,
+            shrink: v["shrink_to_fit"].as_bool().unwrap_or(true),
+            json: v["loaded_from_json"].as_bool().unwrap_or(false),
+        }
+    }
+    fn show(&self) -> String {
+        format!("interval={} shrink_to_fit={} {}", self.interval, self.shrink, if self.json { "loaded-from-json" } else { "built-directly" })
+    }
+}
+
+/// the 12 configurations of sweep A (built directly), default first
+fn cfgs_direct() -> Vec<Cfg> {
+    let mut v = vec![DEFAULT];
+    for interval in INTERVALS {
+        for shrink in [true, false] {
+            let c = Cfg { interval, shrink, json: false };
+            if c != DEFAULT {
+                v.push(c);
+            }
+        }
+    }
+    v
+}
+
+/// all 24 configurations of sweep B, default first
+fn cfgs_all() -> Vec<Cfg> {
+    let mut v = cfgs_direct();
+    for interval in INTERVALS {
+        for shrink in [true, false] {
+            v.push(Cfg { interval, shrink, json: true });
+        }
+    }
+    v
+}
+
+fn ms_class(interval: usize, textlen: usize) -> &'static str {
+    match interval {
+        0 => "0",
+        1 => "1",
+        i if i < textlen => "smaller-than-text",
+        _ => "larger-than-text",
+    }
+}
+
+fn variant(e: &StamError) -> String {
+    // variant name only: messages embed offsets and are not part of the property
+    let s = format!("{:?}", e);
+    s.chars().take_while(|c| c.is_alphanumeric()).collect()
+}
+
+fn panic_class(p: &str) -> String {
+    // msg_class replaces digits and drops back-quoted data; std's slicing panics also quote a character in single quotes
+    let c = msg_class(p);
+    let mut out = String::new();
+    let mut inquote = false;
+    for ch in c.chars() {
+        if ch == '\'' {
+            inquote = !inquote;
+            out.push(ch);
+        } else if !inquote {
+            out.push(ch);
+        }
+    }
+    out.chars().take(90).collect()
+}
+
+fn build_with(text: &str, known: &[R], config: Config, shrink_call: bool) -> Result<AnnotationStore, (String, String)> {
+    let r = catch(|| -> Result<AnnotationStore, (String, String)> {
+        let mut store = AnnotationStore::new(config);
+        store
+            .add_resource(TextResourceBuilder::new().with_id("r").with_text(text))
+            .map_err(|e| ("add_resource".to_string(), format!("err:{}", variant(&e))))?;
+        for (i, r) in known.iter().enumerate() {
+            store
+                .annotate(
+                    AnnotationBuilder::new()
+                        .with_id(format!("k{}", i))
+                        .with_target(SelectorBuilder::textselector("r", Offset::simple(r.0, r.1))),
+                )
+                .map_err(|e| ("annotate".to_string(), format!("err:{}", variant(&e))))?;
+        }
+        if shrink_call {
+            store.shrink_to_fit(true);
+        }
+        Ok(store)
+    });
+    match r {
+        Ok(x) => x,
+        Err(p) => Err(("build".to_string(), format!("panic:{}", panic_class(&p)))),
+    }
+}
+
+/// Build the store `text` + one annotation per known range under `cfg`. Err = (stage, symptom).
+fn build_store(text: &str, known: &[R], cfg: Cfg) -> Result<AnnotationStore, (String, String)> {
+    if !cfg.json {
+        return build_with(text, known, cfg.config(), cfg.shrink);
+    }
+    let plain = build_with(text, known, Config::default(), false)?;
+    let doc = match catch(|| plain.to_json_string(&Config::default())) {
+        Ok(Ok(j)) => j,
+        Ok(Err(e)) => return Err(("serialise".into(), format!("err:{}", variant(&e)))),
+        Err(p) => return Err(("serialise".into(), format!("panic:{}", panic_class(&p)))),
+    };
+    match catch(|| AnnotationStore::from_str(&doc, cfg.config())) {
+        Ok(Ok(s)) => Ok(s),
+        Ok(Err(e)) => Err(("load".into(), format!("err:{}", variant(&e)))),
+        Err(p) => Err(("load".into(), format!("panic:{}", panic_class(&p)))),
+    }
+}
+
+// ------------------------------------------------------------------------------------------------
+// enumeration helpers
+
+/// all texts over `alpha` with at most `maxlen` codepoints, shortest first
+fn texts_over(alpha: &[char], maxlen: usize) -> Vec<String> {
+    let mut out = vec![String::new()];
+    let mut level = vec![String::new()];
+    for _ in 0..maxlen {
+        let mut next = Vec::with_capacity(level.len() * alpha.len());
+        for t in &level {
+            for c in alpha {
+                let mut s = t.clone();
+                s.push(*c);
+                next.push(s);
+            }
+        }
+        out.extend(next.iter().cloned());
+        level = next;
+    }
+    out
+}
+
+/// all sets of at most `maxsize` (<= 2) distinct ranges of a text with `n` codepoints, smallest first
+fn known_subsets(n: usize, maxsize: usize) -> Vec<Vec<R>> {
+    let ranges = all_ranges(n);
+    let mut out: Vec<Vec<R>> = vec![vec![]];
+    if maxsize >= 1 {
+        for r in &ranges {
+            out.push(vec![*r]);
+        }
+    }
+    if maxsize >= 2 {
+        for i in 0..ranges.len() {
+            for j in i + 1..ranges.len() {
+                out.push(vec![ranges[i], ranges[j]]);
+            }
+        }
+    }
+    out
+}
+
+/// byte offset of every codepoint position 0..=len, by naive counting
+fn boundaries(text: &str) -> Vec<usize> {
+    let n = text.chars().count();
+    (0..=n)
+        .map(|p| text.char_indices().nth(p).map(|x| x.0).unwrap_or(text.len()))
+        .collect()
+}
+
+// ------------------------------------------------------------------------------------------------
+// sweep A: conversion against naive counting
+
+#[derive(Clone, Debug, PartialEq, Eq)]
+enum Res {
+    Num(usize),
+    Err,
+    Panic(String),
+}
+
+impl Res {
+    fn show(&self) -> String {
+        match self {
+            Res::Num(n) => format!("Ok({})", n),
+            Res::Err => "Err".to_string(),
+            Res::Panic(p) => format!("panic({})", p),
+        }
+    }
+}
+
+/// `f(0) ..= f(upto)`; one panic guard around the whole table, per-call guards only when something panicked
+fn table<F: Fn(usize) -> Result<usize, StamError>>(f: F, upto: usize) -> Vec<Res> {
+    let whole = catch(|| {
+        (0..=upto)
+            .map(|i| match f(i) {
+                Ok(n) => Res::Num(n),
+                Err(_) => Res::Err,
+            })
+            .collect::<Vec<_>>()
+    });
+    match whole {
+        Ok(v) => v,
+        Err(_) => (0..=upto)
+            .map(|i| match catch(|| f(i)) {
+                Ok(Ok(n)) => Res::Num(n),
+                Ok(Err(_)) => Res::Err,
+                Err(p) => Res::Panic(panic_class(&p)),
+            })
+            .collect(),
+    }
+}
+
+struct ACtx<'a> {
+    text: &'a str,
+    cb: &'a [usize],
+    known: &'a [R],
+    cfg: Cfg,
+    ord: u64,
+    verbose: bool,
+}
+
+#[derive(Default, Clone, Copy)]
+struct Count {
+    stores: u64,
+    receivers: u64,
+    calls: u64,
+    nontrivial: u64,
+}
+
+impl Count {
+    fn add(&mut self, o: Count) {
+        self.stores += o.stores;
+        self.receivers += o.receivers;
+        self.calls += o.calls;
+        self.nontrivial += o.nontrivial;
+    }
+}
+
+fn conv_case(ctx: &ACtx, recv: &str, r: R) -> Value {
+    json!({"kind": "conv", "text": ctx.text, "known": ctx.known, "config": ctx.cfg.to_json(), "receiver": recv, "range": [r.0, r.1]})
+}
+
+const FUNCS: [&str; 4] = ["utf8byte", "utf8byte_to_charpos", "utf8byte>utf8byte_to_charpos", "utf8byte_to_charpos>utf8byte"];
+const RECVS: [&str; 5] = ["resource", "selection:begin=0", "selection:begin>0", "item:begin=0", "item:begin>0"];
+const PCLASS: [&str; 5] = ["inside", "at-end", "beyond-selection", "beyond", "inside-character"];
+const P_INSIDE: u8 = 0;
+const P_END: u8 = 1;
+const P_BEYOND_SEL: u8 = 2;
+const P_BEYOND: u8 = 3;
+const P_INCHAR: u8 = 4;
+
+#[derive(Clone, Debug, PartialEq, Eq, Hash, PartialOrd, Ord)]
+enum Sym {
+    Wrong,
+    UnexpectedErr,
+    OkInsteadOfErr,
+    Roundtrip,
+    Panic(String),
+}
+
+/// the abstract failure class of sweep A; rendered as the signature
+#[derive(Clone, Debug, PartialEq, Eq, Hash, PartialOrd, Ord)]
+struct Key {
+    func: u8,
+    recv: u8,
+    ms: &'static str,
+    idx: bool,
+    pclass: u8,
+    sym: Sym,
+}
+
+impl Key {
+    fn sig(&self) -> String {
+        let sym = match &self.sym {
+            Sym::Wrong => "wrong-number".to_string(),
+            Sym::UnexpectedErr => "unexpected-err".to_string(),
+            Sym::OkInsteadOfErr => "ok-instead-of-err".to_string(),
+            Sym::Roundtrip => "roundtrip".to_string(),
+            Sym::Panic(p) => format!("panic:{}", p),
+        };
+        if self.sym == Sym::Roundtrip {
+            // implied by a failure of one of the two legs, which carries the fine classification: keep this family coarse
+            let recv = RECVS[self.recv as usize].split(':').next().unwrap_or("?");
+            return format!("conv|roundtrip|{}|ms={}|idx={}", recv, self.ms, if self.idx { "has-annotations" } else { "none" });
+        }
+        if let Sym::Panic(p) = &self.sym {
+            // a panic is classified by its message and receiver, not by the position that triggered it
+            return format!(
+                "conv|{}|{}|ms={}|idx={}|panic:{}",
+                FUNCS[self.func as usize],
+                RECVS[self.recv as usize],
+                self.ms,
+                if self.idx { "has-annotations" } else { "none" },
+                p
+            );
+        }
+        format!(
+            "conv|{}|{}|ms={}|idx={}|pos={}|{}",
+            FUNCS[self.func as usize],
+            RECVS[self.recv as usize],
+            self.ms,
+            if self.idx { "has-annotations" } else { "none" },
+            PCLASS[self.pclass as usize],
+            sym
+        )
+    }
+}
+
+struct Entry {
+    count: u64,
+    ord: u64,
+    detail: String,
+    case: Value,
+}
+
+/// Failures of sweep A are aggregated per task and merged, so that the reporter's lock is taken once per signature
+/// and not once per failing probe (one defect fails hundreds of millions of probes).
+#[derive(Default)]
+struct Agg {
+    map: HashMap<Key, Entry>,
+}
+
+impl Agg {
+    fn add(&mut self, key: Key, ord: u64, detail: impl FnOnce() -> String, case: impl FnOnce() -> Value) {
+        match self.map.get_mut(&key) {
+            Some(e) => {
+                e.count += 1;
+                if ord < e.ord {
+                    e.ord = ord;
+                    e.detail = detail();
+                    e.case = case();
+                }
+            }
+            None => {
+                self.map.insert(key, Entry { count: 1, ord, detail: detail(), case: case() });
+            }
+        }
+    }
+    fn merge(mut self, other: Agg) -> Agg {
+        for (k, e) in other.map {
+            match self.map.get_mut(&k) {
+                Some(mine) => {
+                    mine.count += e.count;
+                    if e.ord < mine.ord {
+                        mine.ord = e.ord;
+                        mine.detail = e.detail;
+                        mine.case = e.case;
+                    }
+                }
+                None => {
+                    self.map.insert(k, e);
+                }
+            }
+        }
+        self
+    }
+    /// hand every signature to the reporter (once); returns signature -> number of failing probes
+    fn flush(self, rep: &Reporter, verbose: bool) -> BTreeMap<String, u64> {
+        let mut counts = BTreeMap::new();
+        let mut entries: Vec<(Key, Entry)> = self.map.into_iter().collect();
+        entries.sort_by(|a, b| a.0.cmp(&b.0));
+        for (k, e) in entries {
+            let sig = k.sig();
+            if verbose {
+                println!("  FAIL {} ({} probes) :: {}", sig, e.count, e.detail);
+            }
+            counts.insert(sig.clone(), e.count);
+            let (detail, case) = (e.detail, e.case);
+            rep.fail(&sig, e.ord, move || detail, move || case);
+        }
+        counts
+    }
+}
+
+/// One receiver: `recv` in {resource, selection, item}, covering codepoints [r.0, r.1) of the resource.
+fn check_receiver(
+    agg: &mut Agg,
+    ctx: &ACtx,
+    recv: &str,
+    ri: u64,
+    r: R,
+    ub: impl Fn(usize) -> Result<usize, StamError>,
+    cp: impl Fn(usize) -> Result<usize, StamError>,
+) -> u64 {
+    let n = ctx.cb.len() - 1;
+    let total = ctx.cb[n];
+    let (b, e) = r;
+    let m = e - b; // codepoints of the receiver
+    let base = ctx.cb[b];
+    let mb = ctx.cb[e] - base; // bytes of the receiver
+    let maxpos = n - b + 2; // two past the end of the resource, in the receiver's coordinates
+    let maxbyte = total - base + 2;
+    let got_ub = table(&ub, maxpos);
+    let got_cp = table(&cp, maxbyte);
+    let recv_class: u8 = match (recv, b) {
+        ("resource", _) => 0,
+        ("selection", 0) => 1,
+        ("selection", _) => 2,
+        (_, 0) => 3,
+        (_, _) => 4,
+    };
+    let ms = ms_class(ctx.cfg.interval, n);
+    let idx = !ctx.known.is_empty();
+    let mut fail = |func: u8, pos: usize, pclass: u8, sym: Sym, detail: &dyn Fn() -> String| {
+        let key = if sym == Sym::Roundtrip {
+            // coarse key (see Key::sig): receiver kind only, no direction, no position class
+            Key { func: 2, recv: [0u8, 1, 1, 3, 3][recv_class as usize], ms, idx, pclass: 0, sym }
+        } else if matches!(sym, Sym::Panic(_)) {
+            Key { func, recv: recv_class, ms, idx, pclass: 0, sym }
+        } else {
+            Key { func, recv: recv_class, ms, idx, pclass, sym }
+        };
+        agg.add(
+            key,
+            ctx.ord * 4096 + ri * 64 + pos as u64,
+            || {
+                format!(
+                    "text={:?} annotated={:?} {} receiver={} [{}..{}) {}",
+                    ctx.text,
+                    ctx.known,
+                    ctx.cfg.show(),
+                    recv,
+                    b,
+                    e,
+                    detail()
+                )
+            },
+            || conv_case(ctx, recv, r),
+        );
+    };
+    let symptom = |got: &Res, want: &Res| -> Option<Sym> {
+        match (got, want) {
+            (Res::Panic(p), _) => Some(Sym::Panic(p.clone())),
+            (Res::Num(x), Res::Num(y)) if x == y => None,
+            (Res::Err, Res::Err) => None,
+            (Res::Num(_), Res::Num(_)) => Some(Sym::Wrong),
+            (Res::Err, Res::Num(_)) => Some(Sym::UnexpectedErr),
+            (Res::Num(_), Res::Err) => Some(Sym::OkInsteadOfErr),
+            (_, Res::Panic(_)) => None,
+        }
+    };
+    // codepoint -> byte
+    for p in 0..=maxpos {
+        let (want, pclass) = if p < m {
+            (Res::Num(ctx.cb[b + p] - base), P_INSIDE)
+        } else if p == m {
+            (Res::Num(mb), P_END)
+        } else if b + p <= n {
+            (Res::Err, P_BEYOND_SEL)
+        } else {
+            (Res::Err, P_BEYOND)
+        };
+        if let Some(s) = symptom(&got_ub[p], &want) {
+            fail(0, p, pclass, s, &|| format!("utf8byte({}) = {}, counting characters gives {}", p, got_ub[p].show(), want.show()));
+        }
+    }
+    // byte -> codepoint
+    for x in 0..=maxbyte {
+        let abs = base + x;
+        let (want, pclass) = if abs > total {
+            (Res::Err, P_BEYOND)
+        } else if x > mb {
+            (Res::Err, P_BEYOND_SEL)
+        } else {
+            match ctx.cb.binary_search(&abs) {
+                Ok(i) => (Res::Num(i - b), if x == mb { P_END } else { P_INSIDE }),
+                Err(_) => (Res::Err, P_INCHAR),
+            }
+        };
+        if let Some(s) = symptom(&got_cp[x], &want) {
+            fail(1, x, pclass, s, &|| format!("utf8byte_to_charpos({}) = {}, counting characters gives {}", x, got_cp[x].show(), want.show()));
+        }
+    }
+    // round trips on the valid domain (the same calls with the same arguments on the same immutable store: table lookups)
+    for p in 0..=m {
+        let pclass = if p == m { P_END } else { P_INSIDE };
+        if let Res::Num(x) = got_ub[p] {
+            let back = got_cp.get(x).cloned().unwrap_or(Res::Err);
+            if back != Res::Num(p) && !matches!(back, Res::Panic(_)) {
+                fail(2, p, pclass, Sym::Roundtrip, &|| format!("utf8byte({}) = Ok({}) but utf8byte_to_charpos({}) = {}", p, x, x, back.show()));
+            }
+        }
+        let x = ctx.cb[b + p] - base;
+        if let Res::Num(q) = got_cp[x] {
+            let back = got_ub.get(q).cloned().unwrap_or(Res::Err);
+            if back != Res::Num(x) && !matches!(back, Res::Panic(_)) {
+                fail(3, x, pclass, Sym::Roundtrip, &|| format!("utf8byte_to_charpos({}) = Ok({}) but utf8byte({}) = {}", x, q, q, back.show()));
+            }
+        }
+    }
+    if ctx.verbose {
+        let show = |v: &[Res]| v.iter().map(|r| r.show()).collect::<Vec<_>>().join(" ");
+        println!("  {} [{}..{}): utf8byte(0..={}) = {}", recv, b, e, maxpos, show(&got_ub));
+        println!("  {} [{}..{}): utf8byte_to_charpos(0..={}) = {}", recv, b, e, maxbyte, show(&got_cp));
+    }
+    (maxpos + 1 + maxbyte + 1) as u64
+}
+
+/// One store of sweep A: all receivers. `only`: restrict to one receiver (replay).
+fn check_store_a(rep: &Reporter, agg: &mut Agg, ctx: &ACtx, only: Option<(&str, R)>) -> Count {
+    let n = ctx.cb.len() - 1;
+    let mut cnt = Count { stores: 1, ..Default::default() };
+    let ms = ms_class(ctx.cfg.interval, n);
+    let idx = if ctx.known.is_empty() { "none" } else { "has-annotations" };
+    let store = match build_store(ctx.text, ctx.known, ctx.cfg) {
+        Ok(s) => s,
+        Err((stage, symptom)) => {
+            let sig = format!("conv|setup:{}|ms={}|idx={}|{}", stage, ms, idx, symptom);
+            if ctx.verbose {
+                println!("  FAIL {}", sig);
+            }
+            rep.fail(
+                &sig,
+                ctx.ord * 4096,
+                || format!("text={:?} annotated={:?} {}: building the store failed at {}: {}", ctx.text, ctx.known, ctx.cfg.show(), stage, symptom),
+                || conv_case(ctx, "resource", (0, n)),
+            );
+            return cnt;
+        }
+    };
+    let store = &store;
+    let res = match store.resource("r") {
+        Some(r) => r,
+        None => {
+            rep.fail(
+                &format!("conv|setup:resource-lookup|ms={}|idx={}|missing", ms, idx),
+                ctx.ord * 4096,
+                || format!("text={:?} {}: resource \"r\" not found after add_resource", ctx.text, ctx.cfg.show()),
+                || conv_case(ctx, "resource", (0, n)),
+            );
+            return cnt;
+        }
+    };
+    let multibyte = ctx.cb[n] > n;
+    let indexed = !ctx.known.is_empty() || (ctx.cfg.interval > 0 && ctx.cfg.interval < n);
+    let account = |cnt: &mut Count, calls: u64| {
+        cnt.receivers += 1;
+        cnt.calls += calls;
+        if multibyte && indexed {
+            cnt.nontrivial += 1;
+        }
+    };
+    if only.map(|o| o.0 == "resource").unwrap_or(true) {
+        let c = check_receiver(agg, ctx, "resource", 0, (0, n), |p| res.utf8byte(p), |x| res.utf8byte_to_charpos(x));
+        account(&mut cnt, c);
+    }
+    for (ri, r) in all_ranges(n).into_iter().enumerate() {
+        if let Some((k, rr)) = only {
+            if k == "resource" || rr != r {
+                continue;
+            }
+        }
+        let sel = match catch(|| res.textselection(&Offset::simple(r.0, r.1))) {
+            Ok(Ok(s)) => s,
+            other => {
+                let symptom = match other {
+                    Ok(Err(e)) => format!("err:{}", variant(&e)),
+                    Err(p) => format!("panic:{}", panic_class(&p)),
+                    _ => unreachable!(),
+                };
+                rep.fail(
+                    &format!("conv|setup:textselection|ms={}|idx={}|{}", ms, idx, symptom),
+                    ctx.ord * 4096 + ri as u64 * 64,
+                    || format!("text={:?} annotated={:?} {}: textselection({}, {}) on the resource: {}", ctx.text, ctx.known, ctx.cfg.show(), r.0, r.1, symptom),
+                    || conv_case(ctx, "selection", r),
+                );
+                cnt.calls += 1;
+                continue;
+            }
+        };
+        if only.map(|o| o.0 == "selection").unwrap_or(true) {
+            let c = check_receiver(agg, ctx, "selection", 1 + ri as u64, r, |p| sel.utf8byte(p), |x| sel.utf8byte_to_charpos(x));
+            account(&mut cnt, c + 1);
+        }
+        if let Some(item) = sel.as_resultitem() {
+            if only.map(|o| o.0 == "item").unwrap_or(true) {
+                let c = check_receiver(agg, ctx, "item", 32 + ri as u64, r, |p| item.utf8byte(p), |x| item.utf8byte_to_charpos(x));
+                account(&mut cnt, c);
+            }
+        }
+    }
+    cnt
+}
+
+struct Layer {
+    name: &'static str,
+    alphabet: &'static [char],
+    maxlen: usize,
+    maxsub: usize,
+}
+
+fn layers(tier: Tier) -> Vec<Layer> {
+    const L7: &str = "7-letter alphabet";
+    const L4: &str = "one letter per UTF-8 width (a, e-acute, capital sharp s, musical G clef)";
+    const L3: &str = "three letters of 1, 2 and 4 bytes (a, e-acute, musical G clef)";
+    match tier {
+        Tier::Quick => vec![
+            Layer { name: L7, alphabet: &SIGMA, maxlen: 5, maxsub: 0 },
+            Layer { name: L4, alphabet: &WIDTHS, maxlen: 5, maxsub: 1 },
+            Layer { name: L7, alphabet: &SIGMA, maxlen: 4, maxsub: 1 },
+            Layer { name: L4, alphabet: &WIDTHS, maxlen: 4, maxsub: 2 },
+            Layer { name: L7, alphabet: &SIGMA, maxlen: 3, maxsub: 2 },
+        ],
+        Tier::Thorough => vec![
+            Layer { name: L7, alphabet: &SIGMA, maxlen: 6, maxsub: 0 },
+            Layer { name: L7, alphabet: &SIGMA, maxlen: 5, maxsub: 1 },
+            Layer { name: L4, alphabet: &WIDTHS, maxlen: 6, maxsub: 1 },
+            Layer { name: L4, alphabet: &WIDTHS, maxlen: 5, maxsub: 2 },
+            Layer { name: L3, alphabet: &TRIO, maxlen: 6, maxsub: 2 },
+            Layer { name: L7, alphabet: &SIGMA, maxlen: 4, maxsub: 2 },
+        ],
+    }
+}
+
+fn layer_covers(l: &Layer, text: &str, subsize: usize) -> bool {
+    subsize <= l.maxsub && text.chars().count() <= l.maxlen && text.chars().all(|c| l.alphabet.contains(&c))
+}
+
+fn run_a(rep: &Reporter, cov: &mut Coverage) -> Vec<Value> {
+    let ls = layers(rep.tier);
+    let cfgs = cfgs_direct();
+    let maxn = ls.iter().map(|l| l.maxlen).max().unwrap_or(0);
+    let subsets: Vec<Vec<Vec<R>>> = (0..=maxn).map(|n| known_subsets(n, 2)).collect();
+    let mut space = Vec::new();
+    let mut probes: BTreeMap<String, u64> = BTreeMap::new();
+    for (li, layer) in ls.iter().enumerate() {
+        let t0 = rep.elapsed();
+        let texts = texts_over(layer.alphabet, layer.maxlen);
+        let (total, agg) = texts
+            .par_iter()
+            .enumerate()
+            .map(|(ti, text)| {
+                let cb = boundaries(text);
+                let n = cb.len() - 1;
+                let mut cnt = Count::default();
+                let mut agg = Agg::default();
+                for (si, sub) in subsets[n].iter().enumerate() {
+                    if sub.len() > layer.maxsub || ls[..li].iter().any(|l| layer_covers(l, text, sub.len())) {
+                        continue;
+                    }
+                    for (ci, cfg) in cfgs.iter().enumerate() {
+                        let ord = ((n as u64 * 3 + sub.len() as u64) * 16 + ci as u64) * (1 << 28) + (ti as u64 % (1 << 18)) * 1024 + si as u64 % 1024;
+                        let ctx = ACtx { text, cb: &cb, known: sub, cfg: *cfg, ord, verbose: false };
+                        cnt.add(check_store_a(rep, &mut agg, &ctx, None));
+                    }
+                }
+                (cnt, agg)
+            })
+            .reduce(
+                || (Count::default(), Agg::default()),
+                |mut a, b| {
+                    a.0.add(b.0);
+                    (a.0, a.1.merge(b.1))
+                },
+            );
+        for (sig, k) in agg.flush(rep, false) {
+            *probes.entry(sig).or_insert(0) += k;
+        }
+        cov.states += total.receivers;
+        cov.transitions += total.calls;
+        cov.distinct_nontrivial += total.nontrivial;
+        space.push(json!({
+            "sweep": "A conversion", "layer": format!("{}: texts of at most {} codepoints x every set of at most {} annotated ranges", layer.name, layer.maxlen, layer.maxsub),
+            "alphabet": layer.alphabet.iter().map(|c| c.to_string()).collect::<Vec<_>>(),
+            "max_codepoints": layer.maxlen, "texts": texts.len(), "max_annotated_ranges": layer.maxsub,
+            "milestone_intervals": INTERVALS, "shrink_to_fit": [true, false],
+            "stores_built": total.stores, "receivers_checked": total.receivers, "conversion_calls": total.calls,
+            "cases_already_covered_by_an_earlier_layer_skipped": li > 0,
+            "wall_s": ((rep.elapsed() - t0) * 10.0).round() / 10.0,
+        }));
+        eprintln!("C12 A layer {}: {} stores, {} receivers, {} calls, {:.1}s", li, total.stores, total.receivers, total.calls, rep.elapsed() - t0);
+    }
+    cov.samples.push(json!({"kind": "conv", "text": "a\u{e9}\u{1d11e}", "known": [[1, 2]], "config": Cfg { interval: 2, shrink: false, json: false }.to_json(),
+        "receiver": "selection", "range": [1, 3], "checked": "utf8byte(0..=4) and utf8byte_to_charpos(0..=8) against char_indices counting, round trip on 0..=2"}));
+    cov.samples.push(json!({"kind": "conv", "text": "\u{1e9e} \u{130}a", "known": [], "config": Cfg { interval: 1, shrink: true, json: false }.to_json(),
+        "receiver": "resource", "range": [0, 4], "checked": "utf8byte(0..=6) and utf8byte_to_charpos(0..=9)"}));
+    cov.extra.insert("sweep_A_failing_probes_per_signature".into(), json!(probes));
+    space
+}
+
+// ------------------------------------------------------------------------------------------------
+// sweep B: differential observation battery
+
+type ObsMap = BTreeMap<&'static str, Vec<String>>;
+
+/// observation kinds whose value legitimately depends on which annotations exist (compared with the default
+/// configuration of the *same* annotated store); all other kinds are compared with the default configuration of the
+/// store without annotations
+const DEPENDENT: [&str; 7] = ["textselections", "segmentation", "related_text", "positions", "annotations", "boundness", "annotate.textselections"];
+
+fn dependent(kind: &str) -> bool {
+    DEPENDENT.contains(&kind)
+}
+
+struct Obs {
+    kinds: ObsMap,
+    calls: u64,
+}
+
+impl Obs {
+    fn put(&mut self, kind: &'static str, key: String, f: impl FnOnce() -> String) {
+        self.calls += 1;
+        let v = match catch(f) {
+            Ok(s) => s,
+            Err(p) => format!("PANIC {}", panic_class(&p)),
+        };
+        self.kinds.entry(kind).or_default().push(format!("{} => {}", key, v));
+    }
+}
+
+fn sel_str(ts: &ResultTextSelection) -> String {
+    format!("{}..{}{:?}", ts.begin(), ts.end(), ts.text())
+}
+
+fn list<'a>(it: impl Iterator<Item = ResultTextSelection<'a>>) -> String {
+    let mut v: Vec<String> = Vec::new();
+    for ts in it {
+        if v.len() >= CAP {
+            v.push("<more than cap>".into());
+            break;
+        }
+        v.push(sel_str(&ts));
+    }
+    format!("[{}]", v.join(", "))
+}
+
+fn res_str<T>(r: Result<T, StamError>, f: impl FnOnce(T) -> String) -> String {
+    match r {
+        Ok(x) => f(x),
+        Err(e) => format!("Err({})", variant(&e)),
+    }
+}
+
+const RX: [&str; 8] = [".", r"\s+", "a|A", "(.)(.)", r"\b", "[^a ]+", "(?i)a", "$"];
+
+fn regexes() -> &'static Vec<Regex> {
+    static CELL: OnceLock<Vec<Regex>> = OnceLock::new();
+    CELL.get_or_init(|| RX.iter().map(|r| Regex::new(r).expect("regex")).collect())
+}
+
+fn regex_str<'a, 'b>(found: Result<FindRegexIter<'a, 'b>, StamError>) -> String {
+    res_str(found, |it| {
+        let mut v = Vec::new();
+        for m in it {
+            if v.len() >= CAP {
+                v.push("<more than cap>".into());
+                break;
+            }
+            let sels: Vec<String> = m.textselections().iter().map(sel_str).collect();
+            v.push(format!("#{}{:?}{:?}", m.expression_index(), sels, m.capturegroups()));
+        }
+        format!("[{}]", v.join(", "))
+    })
+}
+
+fn rel_ops() -> Vec<(&'static str, TextSelectionOperator)> {
+    let (all, negate) = (false, false);
+    vec![
+        ("equals", TextSelectionOperator::Equals { all, negate }),
+        ("overlaps", TextSelectionOperator::Overlaps { all, negate }),
+        ("embeds", TextSelectionOperator::Embeds { all, negate }),
+        ("embedded", TextSelectionOperator::Embedded { all, negate, limit: None }),
+        ("before", TextSelectionOperator::Before { all, negate, limit: None }),
+        ("after", TextSelectionOperator::After { all, negate, limit: None }),
+        ("precedes", TextSelectionOperator::Precedes { all, negate, allow_whitespace: false }),
+        ("succeeds", TextSelectionOperator::Succeeds { all, negate, allow_whitespace: true }),
+        ("samebegin", TextSelectionOperator::SameBegin { all, negate }),
+        ("sameend", TextSelectionOperator::SameEnd { all, negate }),
+    ]
+}
+
+fn needles_of(text: &str) -> Vec<String> {
+    let chars: Vec<char> = text.chars().collect();
+    let mut set: BTreeSet<String> = BTreeSet::new();
+    for c in &chars {
+        set.insert(c.to_string());
+    }
+    for w in chars.windows(2) {
+        set.insert(w.iter().collect());
+    }
+    for extra in ["a", "A", "\u{df}"] {
+        set.insert(extra.to_string());
+    }
+    set.into_iter().collect()
+}
+
+fn positions_str<'a>(it: Box<dyn Iterator<Item = &'a usize> + 'a>) -> String {
+    let v: Vec<usize> = it.take(CAP).copied().collect();
+    format!("{:?}", v)
+}
+
+fn tables_str(ub: impl Fn(usize) -> Result<usize, StamError>, cp: impl Fn(usize) -> Result<usize, StamError>, maxpos: usize, maxbyte: usize) -> String {
+    let f = |r: Result<usize, StamError>| match r {
+        Ok(n) => n.to_string(),
+        Err(_) => "E".to_string(),
+    };
+    let a: Vec<String> = (0..=maxpos).map(|p| f(ub(p))).collect();
+    let b: Vec<String> = (0..=maxbyte).map(|x| f(cp(x))).collect();
+    format!("utf8byte[{}] utf8byte_to_charpos[{}]", a.join(" "), b.join(" "))
+}
+
+/// the read-only part of the battery
+fn observe(store: &AnnotationStore, text: &str, o: &mut Obs) {
+    let n = text.chars().count();
+    let nbytes = text.len();
+    let res = match store.resource("r") {
+        Some(r) => r,
+        None => {
+            o.put("resource", "lookup".into(), || "missing".into());
+            return;
+        }
+    };
+    let res = &res;
+    let needles = needles_of(text);
+    let rx = regexes();
+    // resource level, every begin-aligned and end-aligned cursor pair incl. invalid ones
+    for b in 0..=n + 1 {
+        for e in 0..=n + 1 {
+            let off = Offset::simple(b, e);
+            o.put("text_by_offset", format!("res ({},{})", b, e), || res_str(res.text_by_offset(&off), |t| format!("{:?}", t)));
+            o.put("textselection", format!("res ({},{})", b, e), || res_str(res.textselection(&off), |t| sel_str(&t)));
+            let off = Offset::new(Cursor::EndAligned(-(b as isize)), Cursor::EndAligned(-(e as isize)));
+            o.put("text_by_offset", format!("res (-{},-{})", b, e), || res_str(res.text_by_offset(&off), |t| format!("{:?}", t)));
+            o.put("textselection", format!("res (-{},-{})", b, e), || res_str(res.textselection(&off), |t| sel_str(&t)));
+        }
+    }
+    o.put("convert", "res".into(), || tables_str(|p| res.utf8byte(p), |x| res.utf8byte_to_charpos(x), n + 2, nbytes + 2));
+    for nd in &needles {
+        o.put("find_text", format!("res {:?}", nd), || list(res.find_text(nd)));
+        o.put("find_text_nocase", format!("res {:?}", nd), || list(res.find_text_nocase(nd)));
+        o.put("split_text", format!("res {:?}", nd), || list(res.split_text(nd)));
+    }
+    for (i, _) in rx.iter().enumerate() {
+        o.put("find_text_regex", format!("res {:?}", RX[i]), || regex_str(res.find_text_regex(&rx[i..i + 1], None, false)));
+    }
+    o.put("find_text_regex", "res first three, overlap".into(), || regex_str(res.find_text_regex(&rx[0..3], None, true)));
+    o.put("find_text_regex", "res first three, no overlap".into(), || regex_str(res.find_text_regex(&rx[0..3], None, false)));
+    o.put("trim_text", "res".into(), || res_str(res.trim_text(&[' ', 'a']), |t| sel_str(&t)));
+    o.put("textselections", "res listing".into(), || list(res.textselections()));
+    o.put("textselections", "res len".into(), || res.textselections_len().to_string());
+    o.put("segmentation", "res".into(), || list(res.segmentation()));
+    o.put("positions", "res begin".into(), || positions_str(res.as_ref().positions(PositionMode::Begin)));
+    o.put("positions", "res end".into(), || positions_str(res.as_ref().positions(PositionMode::End)));
+    o.put("positions", "res both".into(), || positions_str(res.as_ref().positions(PositionMode::Both)));
+    // every sub-selection
+    for (b, e) in all_ranges(n) {
+        let sel = match catch(|| res.textselection(&Offset::simple(b, e))) {
+            Ok(Ok(s)) => s,
+            _ => continue, // recorded above under "textselection"
+        };
+        let sel = &sel;
+        let m = e - b;
+        let tag = format!("sel[{}..{})", b, e);
+        for rb in 0..=m + 1 {
+            for re in 0..=m + 1 {
+                let off = Offset::simple(rb, re);
+                o.put("text_by_offset", format!("{} ({},{})", tag, rb, re), || res_str(sel.text_by_offset(&off), |t| format!("{:?}", t)));
+                o.put("textselection", format!("{} ({},{})", tag, rb, re), || res_str(sel.textselection(&off), |t| sel_str(&t)));
+            }
+        }
+        o.put("convert", tag.clone(), || {
+            tables_str(|p| sel.utf8byte(p), |x| sel.utf8byte_to_charpos(x), n - b + 2, nbytes + 2)
+        });
+        if let Some(item) = sel.as_resultitem() {
+            // the separate impl on ResultItem<TextSelection>; only exists for annotated ranges
+            o.put("boundness", format!("{} item", tag), || {
+                format!(
+                    "{} {:?} {}",
+                    tables_str(|p| item.utf8byte(p), |x| item.utf8byte_to_charpos(x), n - b + 2, nbytes + 2),
+                    item.text(),
+                    res_str(item.text_by_offset(&Offset::whole()), |t| format!("{:?}", t))
+                )
+            });
+        }
+        o.put("boundness", tag.clone(), || format!("bound={} annotations={}", sel.as_resultitem().is_some(), sel.annotations().take(CAP).count()));
+        for nd in &needles {
+            o.put("find_text", format!("{} {:?}", tag, nd), || list(sel.find_text(nd)));
+            o.put("find_text_nocase", format!("{} {:?}", tag, nd), || list(sel.find_text_nocase(nd)));
+            o.put("split_text", format!("{} {:?}", tag, nd), || list(sel.split_text(nd)));
+        }
+        for (i, _) in rx.iter().enumerate() {
+            o.put("find_text_regex", format!("{} {:?}", tag, RX[i]), || regex_str(sel.find_text_regex(&rx[i..i + 1], None, false)));
+        }
+        o.put("trim_text", tag.clone(), || res_str(sel.trim_text(&[' ', 'a']), |t| sel_str(&t)));
+        for (name, op) in rel_ops() {
+            o.put("related_text", format!("{} {}", tag, name), || list(sel.related_text(op)));
+        }
+        o.put("segmentation", tag.clone(), || list(sel.segmentation()));
+        o.put("segmentation", format!("res in_range({},{})", b, e), || list(res.segmentation_in_range(b, e)));
+        o.put("positions", format!("{} both", tag), || positions_str(sel.positions(PositionMode::Both)));
+        o.put("positions", format!("{} begin", tag), || positions_str(sel.positions(PositionMode::Begin)));
+    }
+    for a in store.annotations().take(CAP) {
+        let a = &a;
+        o.put("annotations", format!("{:?}", a.id()), || {
+            let texts: Vec<&str> = a.text().take(CAP).collect();
+            let sels: Vec<String> = a.textselections().take(CAP).map(|t| format!("{}..{}", t.begin(), t.end())).collect();
+            format!("{:?} {:?}", texts, sels)
+        });
+    }
+}
+
+/// the mutating part of the battery: annotate every begin-aligned and end-aligned cursor pair in turn
+fn observe_annotate(store: &mut AnnotationStore, text: &str, o: &mut Obs) {
+    let n = text.chars().count();
+    for mode in 0..2 {
+        for b in 0..=n + 1 {
+            for e in 0..=n + 1 {
+                let (off, id) = if mode == 0 {
+                    (Offset::simple(b, e), format!("p{}_{}", b, e))
+                } else {
+                    (Offset::new(Cursor::EndAligned(-(b as isize)), Cursor::EndAligned(-(e as isize))), format!("q{}_{}", b, e))
+                };
+                let key = format!("{}", id);
+                let st = &mut *store;
+                o.put("annotate", key, move || {
+                    let r = st.annotate(AnnotationBuilder::new().with_id(id.clone()).with_target(SelectorBuilder::textselector("r", off)));
+                    match r {
+                        Err(e) => format!("Err({})", variant(&e)),
+                        Ok(_) => match st.annotation(id.as_str()) {
+                            None => "accepted but not found".to_string(),
+                            Some(a) => {
+                                let texts: Vec<&str> = a.text().take(CAP).collect();
+                                let sels: Vec<String> = a.textselections().take(CAP).map(|t| format!("{}..{}", t.begin(), t.end())).collect();
+                                format!("Ok {:?} {:?}", texts, sels)
+                            }
+                        },
+                    }
+                });
+            }
+        }
+    }
+    let st = &*store;
+    o.put("annotate.textselections", "res listing".into(), || match st.resource("r") {
+        Some(r) => list(r.textselections()),
+        None => "missing".into(),
+    });
+    o.put("annotate.textselections", "res segmentation".into(), || match st.resource("r") {
+        Some(r) => list(r.segmentation()),
+        None => "missing".into(),
+    });
+}
+
+enum StoreObs {
+    Built(ObsMap),
+    Failed(String),
+}
+
+fn observe_cfg(text: &str, known: &[R], cfg: Cfg) -> (StoreObs, u64) {
+    let mut o = Obs { kinds: BTreeMap::new(), calls: 0 };
+    match build_store(text, known, cfg) {
+        Ok(store) => observe(&store, text, &mut o),
+        Err((stage, symptom)) => return (StoreObs::Failed(format!("{}:{}", stage, symptom)), 1),
+    }
+    match build_store(text, known, cfg) {
+        Ok(mut store) => observe_annotate(&mut store, text, &mut o),
+        Err((stage, symptom)) => return (StoreObs::Failed(format!("{}:{}", stage, symptom)), 1),
+    }
+    (StoreObs::Built(o.kinds), o.calls)
+}
+
+fn all_kinds(a: &ObsMap, b: &ObsMap) -> Vec<&'static str> {
+    let mut s: BTreeSet<&'static str> = a.keys().copied().collect();
+    s.extend(b.keys().copied());
+    s.into_iter().collect()
+}
+
+/// does `kind` differ between an observation and its baseline? Returns (symptom, detail) of the first difference.
+fn kind_diff(obs: &StoreObs, base: &StoreObs, kind: &str) -> Option<(String, String)> {
+    let base = match base {
+        StoreObs::Built(m) => m,
+        StoreObs::Failed(_) => return None, // nothing to compare with
+    };
+    match obs {
+        StoreObs::Failed(why) => {
+            if kind == "setup" {
+                Some((format!("failed:{}", why), format!("the store cannot be built under this configuration ({}), but can under the default", why)))
+            } else {
+                None
+            }
+        }
+        StoreObs::Built(m) => {
+            if kind == "setup" {
+                return None;
+            }
+            let empty = Vec::new();
+            let (x, y) = (m.get(kind).unwrap_or(&empty), base.get(kind).unwrap_or(&empty));
+            if x == y {
+                return None;
+            }
+            for (a, b) in x.iter().zip(y.iter()) {
+                if a != b {
+                    let symptom = if a.contains("PANIC") && !b.contains("PANIC") {
+                        let p = a.split("PANIC ").nth(1).unwrap_or("");
+                        format!("panic:{}", p.chars().take(60).collect::<String>())
+                    } else {
+                        "differs".to_string()
+                    };
+                    return Some((symptom, format!("this configuration: {{{}}} default configuration: {{{}}}", a, b)));
+                }
+            }
+            Some(("differs".into(), format!("{} observations instead of {}", x.len(), y.len())))
+        }
+    }
+}
+
+struct TextB<'a> {
+    text: &'a str,
+    empty: &'a HashMap<Cfg, StoreObs>,
+}
+
+/// Compare all configurations of one (text, known) store with its baselines; report minimal differing knob sets.
+fn compare_b(rep: &Reporter, tb: &TextB, known: &[R], cur: &HashMap<Cfg, StoreObs>, ord: u64, verbose: bool) -> u64 {
+    let n = tb.text.chars().count();
+    let has_known = !known.is_empty();
+    let root = &tb.empty[&DEFAULT];
+    let mut comparisons = 0;
+    // observation + baseline for a configuration, with or without the annotations
+    let lookup = |c: &Cfg, with_known: bool, kind: &str| -> (&StoreObs, &StoreObs) {
+        let table = if with_known { cur } else { tb.empty };
+        let base = if dependent(kind) { &table[&DEFAULT] } else { root };
+        (&table[c], base)
+    };
+    let mut kinds: Vec<&'static str> = vec!["setup"];
+    if let (StoreObs::Built(a), StoreObs::Built(b)) = (root, &cur[&DEFAULT]) {
+        kinds.extend(all_kinds(a, b));
+    } else if let StoreObs::Built(a) = root {
+        kinds.extend(all_kinds(a, a));
+    }
+    for (ci, c) in cfgs_all().iter().enumerate() {
+        for kind in &kinds {
+            let (obs, base) = lookup(c, has_known, kind);
+            comparisons += 1;
+            let (symptom, detail) = match kind_diff(obs, base, kind) {
+                Some(d) => d,
+                None => continue,
+            };
+            // changed knobs relative to the baseline of this kind
+            let mut knobs: Vec<(&str, String)> = Vec::new();
+            if c.interval != DEFAULT.interval {
+                knobs.push(("m", format!("milestone_interval:{}", ms_class(c.interval, n))));
+            }
+            if c.shrink != DEFAULT.shrink {
+                knobs.push(("s", "shrink_to_fit".into()));
+            }
+            if c.json {
+                knobs.push(("j", "loaded-from-json".into()));
+            }
+            if has_known && !dependent(kind) {
+                knobs.push(("a", "annotations-exist".into()));
+            }
+            // minimality: no proper subset of the changed knobs already shows a difference in this kind
+            let k = knobs.len();
+            let mut minimal = true;
+            for mask in 1..(1u32 << k).saturating_sub(1) {
+                let on = |tag: &str| knobs.iter().enumerate().any(|(i, kn)| kn.0 == tag && mask & (1 << i) != 0);
+                let sub = Cfg {
+                    interval: if on("m") { c.interval } else { DEFAULT.interval },
+                    shrink: if on("s") { c.shrink } else { DEFAULT.shrink },
+                    json: on("j"),
+                };
+                let with_known = if dependent(kind) { has_known } else { on("a") };
+                let (o2, b2) = lookup(&sub, with_known, kind);
+                if kind_diff(o2, b2, kind).is_some() {
+                    minimal = false;
+                    break;
+                }
+            }
+            if !minimal {
+                continue;
+            }
+            let names: Vec<String> = knobs.iter().map(|x| x.1.clone()).collect();
+            let sig = format!("knob|{}|{}|{}", kind, names.join("+"), symptom);
+            if verbose {
+                println!("  FAIL {} :: {}", sig, detail);
+            }
+            rep.fail(
+                &sig,
+                (ord * 32 + ci as u64) * 64 + k as u64,
+                || format!("text={:?} annotated={:?} {}: observation {:?} changes: {}", tb.text, known, c.show(), kind, detail),
+                || json!({"kind": "knob", "text": tb.text, "known": known, "config": c.to_json(), "observation": kind}),
+            );
+        }
+    }
+    comparisons
+}
+
+fn texts_b(tier: Tier) -> (Vec<String>, usize, Vec<&'static str>) {
+    let small = tier.pick(2, 3);
+    let mut texts = texts_over(&WIDTHS, small);
+    let menu: Vec<&'static str> = match tier {
+        Tier::Quick => vec!["a\u{e9} \u{1d11e}", "aA \u{130}", " \u{1e9e}a "],
+        Tier::Thorough => vec![
+            "aA \u{130}",
+            " \u{1e9e}a ",
+            "a\u{e9} \u{1d11e}d",
+            " \u{e9}\u{1d11e} x",
+            "a b  c",
+            "\u{130}\u{1e9e}\u{1d11e}\u{e9}aA",
+        ],
+    };
+    for m in &menu {
+        if !texts.iter().any(|t| t == m) {
+            texts.push(m.to_string());
+        }
+    }
+    (texts, small, menu)
+}
+
+fn run_b(rep: &Reporter, cov: &mut Coverage) -> Value {
+    let t0 = rep.elapsed();
+    let (texts, small, menu) = texts_b(rep.tier);
+    let cfgs = cfgs_all();
+    let stores = AtomicU64::new(0);
+    let calls = AtomicU64::new(0);
+    let comparisons = AtomicU64::new(0);
+    let skipped = AtomicU64::new(0);
+    let nontrivial = AtomicU64::new(0);
+    texts.par_iter().enumerate().for_each(|(ti, text)| {
+        let n = text.chars().count();
+        let mut empty: HashMap<Cfg, StoreObs> = HashMap::new();
+        for c in &cfgs {
+            let (o, k) = observe_cfg(text, &[], *c);
+            calls.fetch_add(k, Ordering::Relaxed);
+            stores.fetch_add(2, Ordering::Relaxed);
+            empty.insert(*c, o);
+        }
+        if let StoreObs::Failed(_) = empty[&DEFAULT] {
+            skipped.fetch_add(1, Ordering::Relaxed);
+            return;
+        }
+        let tb = TextB { text, empty: &empty };
+        let k = compare_b(rep, &tb, &[], &empty, (n as u64) << 24 | (ti as u64 & 0xfff) << 12, false);
+        comparisons.fetch_add(k, Ordering::Relaxed);
+        let subs = known_subsets(n, 2);
+        subs.par_iter().enumerate().skip(1).for_each(|(si, known)| {
+            let mut cur: HashMap<Cfg, StoreObs> = HashMap::new();
+            for c in &cfgs {
+                let (o, k) = observe_cfg(text, known, *c);
+                calls.fetch_add(k, Ordering::Relaxed);
+                stores.fetch_add(2, Ordering::Relaxed);
+                cur.insert(*c, o);
+            }
+            let ord = ((n as u64) << 24 | (ti as u64 & 0xfff) << 12) + (known.len() as u64) * 1024 + (si as u64 & 1023);
+            let k = compare_b(rep, &tb, known, &cur, ord, false);
+            comparisons.fetch_add(k, Ordering::Relaxed);
+            if text.len() > n {
+                nontrivial.fetch_add(cfgs.len() as u64, Ordering::Relaxed);
+            }
+        });
+    });
+    let st = stores.load(Ordering::Relaxed);
+    cov.states += st / 2;
+    cov.transitions += calls.load(Ordering::Relaxed);
+    cov.distinct_nontrivial += nontrivial.load(Ordering::Relaxed);
+    cov.samples.push(json!({"kind": "knob", "text": "a\u{e9} \u{1d11e}", "known": [[0, 2], [1, 4]], "config": Cfg { interval: 2, shrink: false, json: true }.to_json(),
+        "observation": "every kind of the battery, compared with the default configuration"}));
+    eprintln!("C12 B: {} texts, {} stores, {} calls, {:.1}s", texts.len(), st, calls.load(Ordering::Relaxed), rep.elapsed() - t0);
+    json!({
+        "sweep": "B differential battery",
+        "texts": format!("all texts over one letter per UTF-8 width with at most {} codepoints, plus the menu", small),
+        "menu": menu, "texts_total": texts.len(), "texts_skipped_because_the_default_store_cannot_be_built": skipped.load(Ordering::Relaxed),
+        "annotated_range_sets": "every set of at most two ranges of the text",
+        "configurations": "6 milestone intervals x shrink_to_fit on/off x {built directly, loaded from STAM JSON} = 24",
+        "observation_kinds": ["text_by_offset", "textselection", "convert", "find_text", "find_text_nocase", "split_text", "find_text_regex", "trim_text",
+            "annotate", "textselections", "segmentation", "related_text", "positions", "annotations", "boundness", "annotate.textselections"],
+        "stores_built": st, "library_calls": calls.load(Ordering::Relaxed), "kind_comparisons": comparisons.load(Ordering::Relaxed),
+        "wall_s": ((rep.elapsed() - t0) * 10.0).round() / 10.0,
+    })
+}
+
+// ------------------------------------------------------------------------------------------------
+// sweep C: knobs over operation histories
+
+struct HistKnobs {
+    replays: AtomicU64,
+    loads: AtomicU64,
+    states: AtomicU64,
+}
+
+/// shortest resource text of the history alphabet (hist::R1) has 4 codepoints: intervals 2 and 3 place milestones
+const HIST_TEXTLEN: usize = 4;
+
+fn replay_cfg(history: &[Op], config: Config) -> (AnnotationStore, Vec<Outcome>) {
+    let mut store = AnnotationStore::new(config);
+    let mut outs = Vec::with_capacity(history.len());
+    for op in history {
+        outs.push(apply_real(&mut store, op));
+    }
+    (store, outs)
+}
+
+/// abstract content + the text every annotation selects + the text selections of every resource
+fn hist_obs(store: &AnnotationStore) -> Result<Vec<(String, String)>, String> {
+    catch(|| {
+        let mut v = ser_abstract(store, true, true);
+        for a in store.annotations() {
+            let texts: Vec<&str> = a.text().take(CAP).collect();
+            v.push(("text".into(), format!("{:?} {:?}", a.id(), texts)));
+        }
+        for r in store.resources() {
+            v.push(("textselections".into(), format!("{:?} {}", r.id(), list(r.textselections()))));
+        }
+        v
+    })
+    .map_err(|p| panic_class(&p))
+}
+
+fn obs_diff(a: &[(String, String)], b: &[(String, String)]) -> Option<(String, String)> {
+    if let Some(d) = diff_ser(a, b) {
+        return Some(d);
+    }
+    for section in ["text", "textselections"] {
+        let x: Vec<&String> = a.iter().filter(|p| p.0 == section).map(|p| &p.1).collect();
+        let y: Vec<&String> = b.iter().filter(|p| p.0 == section).map(|p| &p.1).collect();
+        if x != y {
+            let d = x.iter().zip(y.iter()).find(|(p, q)| p != q).map(|(p, q)| format!("default: {} this configuration: {}", p, q)).unwrap_or_else(|| format!("{} lines instead of {}", y.len(), x.len()));
+            return Some((section.to_string(), d));
+        }
+    }
+    None
+}
+
+/// All knob comparisons for one history. Returns (replays, loads).
+fn check_history(rep: &Reporter, hist: &[Op], ord: u64, verbose: bool) -> (u64, u64) {
+    let (mut replays, mut loads) = (0, 0);
+    let (store0, outs0) = replay_cfg(hist, Config::default());
+    replays += 1;
+    let base = hist_obs(&store0);
+    let fail = |path: &str, knobs: String, symptom: String, detail: String, cfg: Cfg| {
+        let sig = format!("hist|{}|{}|{}", path, knobs, symptom);
+        if verbose {
+            println!("  FAIL {} :: {}", sig, detail);
+        }
+        rep.fail(
+            &sig,
+            ord,
+            || format!("history [{}] {}: {}", hist.iter().map(|o| o.short()).collect::<Vec<_>>().join("; "), cfg.show(), detail),
+            || json!({"kind": "hist", "history": history_json(hist, None), "config": cfg.to_json()}),
+        );
+    };
+    for interval in INTERVALS {
+        if interval == DEFAULT.interval {
+            continue;
+        }
+        let cfg = Cfg { interval, shrink: true, json: false };
+        let knobs = format!("milestone_interval:{}", ms_class(interval, HIST_TEXTLEN));
+        let (store, outs) = replay_cfg(hist, cfg.config());
+        replays += 1;
+        if let Some(i) = (0..hist.len()).find(|i| outs[*i].class() != outs0[*i].class()) {
+            fail(
+                "direct",
+                knobs.clone(),
+                format!("outcome-differs:{}:{}", hist[i].kind(), if outs0[i].is_ok() { "ok->failure" } else if outs[i].is_ok() { "failure->ok" } else { "failure->failure" }),
+                format!("operation {} ({}) gives {} under the default configuration but {} here", i, hist[i].short(), outs0[i].class(), outs[i].class()),
+                cfg,
+            );
+            continue;
+        }
+        match (&base, hist_obs(&store)) {
+            (Ok(a), Ok(b)) => {
+                if let Some((section, detail)) = obs_diff(a, &b) {
+                    fail("direct", knobs, format!("observation-differs@{}", section), detail, cfg);
+                }
+            }
+            (Ok(_), Err(p)) => fail("direct", knobs, format!("observation-panic:{}", p), "observing the store panicked, but not under the default configuration".into(), cfg),
+            (Err(_), _) => {}
+        }
+    }
+    // the JSON document of the default store, loaded under every configuration
+    let doc = match catch(|| store0.to_json_string(&Config::default())) {
+        Ok(Ok(d)) => d,
+        _ => return (replays, loads), // serialisation failures are C05's subject
+    };
+    let load = |cfg: Cfg| -> Result<Vec<(String, String)>, String> {
+        match catch(|| AnnotationStore::from_str(&doc, cfg.config())) {
+            Ok(Ok(s)) => hist_obs(&s).map_err(|p| format!("observation-panic:{}", p)),
+            Ok(Err(e)) => Err(format!("load-err:{}", variant(&e))),
+            Err(p) => Err(format!("load-panic:{}", panic_class(&p))),
+        }
+    };
+    let base_load = load(DEFAULT);
+    loads += 1;
+    for interval in INTERVALS {
+        for shrink in [true, false] {
+            let cfg = Cfg { interval, shrink, json: true };
+            if interval == DEFAULT.interval && shrink == DEFAULT.shrink {
+                continue;
+            }
+            let mut names = Vec::new();
+            if interval != DEFAULT.interval {
+                names.push(format!("milestone_interval:{}", ms_class(interval, HIST_TEXTLEN)));
+            }
+            if !shrink {
+                names.push("shrink_to_fit".to_string());
+            }
+            let knobs = names.join("+");
+            let got = load(cfg);
+            loads += 1;
+            match (&base_load, &got) {
+                (Ok(a), Ok(b)) => {
+                    if let Some((section, detail)) = obs_diff(a, b) {
+                        fail("json", knobs, format!("observation-differs@{}", section), detail, cfg);
+                    }
+                }
+                (Ok(_), Err(e)) => fail("json", knobs, format!("default-loads-but:{}", e), format!("the document loads under the default configuration but here: {}", e), cfg),
+                (Err(e), Ok(_)) => fail("json", knobs, format!("loads-but-default:{}", e), format!("the document loads here but under the default configuration: {}", e), cfg),
+                (Err(a), Err(b)) => {
+                    if a != b {
+                        fail("json", knobs, format!("failure-differs:{}", b), format!("default configuration: {} here: {}", a, b), cfg);
+                    }
+                }
+            }
+        }
+    }
+    (replays, loads)
+}
+
+impl Oracle for HistKnobs {
+    fn transition(&self, rep: &Reporter, t: &Trans) -> bool {
+        if !t.new_state {
+            return true;
+        }
+        let mut hist = t.hist.to_vec();
+        hist.push(t.op.clone());
+        let (r, l) = check_history(rep, &hist, (1 << 62) | t.ord, false);
+        self.replays.fetch_add(r, Ordering::Relaxed);
+        self.loads.fetch_add(l, Ordering::Relaxed);
+        self.states.fetch_add(1, Ordering::Relaxed);
+        true
+    }
+    fn needs_conformance(&self) -> bool {
+        false
+    }
+}
+
+fn run_c(rep: &Reporter, cov: &mut Coverage) -> (Value, bool) {
+    let t0 = rep.elapsed();
+    let oracle = HistKnobs { replays: AtomicU64::new(0), loads: AtomicU64::new(0), states: AtomicU64::new(0) };
+    let mut runs = Vec::new();
+    let mut exhaustive = true;
+    let budget = rep.elapsed() + rep.tier.pick(12.0, 600.0);
+    for mut plan in plans(rep.tier) {
+        plan.depth -= 1; // 6 replays and 12 document loads per state
+        let stats = explore(rep, &oracle, &plan.init, &plan.al, plan.depth, budget);
+        cov.states += stats.states;
+        cov.transitions += stats.transitions;
+        cov.distinct_nontrivial += stats.nontrivial_states;
+        exhaustive &= stats.completed_depth == plan.depth;
+        for h in stats.sample_histories.iter().take(1) {
+            cov.samples.push(json!({"kind": "hist", "history": h, "then": "replayed under milestone intervals 0,1,2,3,7; JSON document loaded under all 12 (interval, shrink_to_fit) pairs"}));
+        }
+        runs.push(json!({"exploration": plan.name, "depth_requested": plan.depth, "depth_completed": stats.completed_depth,
+            "new_states_per_depth": stats.depth_hist, "transitions": stats.transitions}));
+    }
+    let (r, l) = (oracle.replays.load(Ordering::Relaxed), oracle.loads.load(Ordering::Relaxed));
+    cov.transitions += r + l;
+    eprintln!("C12 C: {} states checked, {} replays, {} loads, {:.1}s", oracle.states.load(Ordering::Relaxed), r, l, rep.elapsed() - t0);
+    (
+        json!({"sweep": "C knobs over histories", "explorations": runs, "states_checked": oracle.states.load(Ordering::Relaxed),
+            "history_replays_under_a_configuration": r, "document_loads_under_a_configuration": l,
+            "wall_s": ((rep.elapsed() - t0) * 10.0).round() / 10.0}),
+        exhaustive,
+    )
+}
+
+// ------------------------------------------------------------------------------------------------
+
+pub fn run(rep: &Reporter) -> Coverage {
+    let mut cov = Coverage::default();
+    let mut space = run_a(rep, &mut cov);
+    space.push(run_b(rep, &mut cov));
+    let (c, exhaustive) = run_c(rep, &mut cov);
+    space.push(c);
+    cov.traces_validated = cov.states;
+    cov.evaluations = cov.transitions;
+    cov.exhaustive = exhaustive;
+    cov.rule = "A: every (text, set of annotated ranges, milestone interval, shrink_to_fit, receiver) with receiver = the resource, every sub-selection [b,e) and the ResultItem<TextSelection> of every annotated range; on each, utf8byte(p) for every p up to two past the end of the resource and utf8byte_to_charpos(x) for every byte x up to two past the end, compared with counting char_indices, Err required beyond the receiver's text and inside a codepoint, both round trips on the valid domain. B: every (text, set of annotated ranges) x 24 configurations; the observation battery must equal the one under the default configuration (annotation-independent kinds: of the store without annotations). C: every distinct state of the history exploration replayed under 5 other intervals and its JSON document loaded under 11 other (interval, shrink) pairs. states = receivers (A) + stores (B) + history states (C); transitions = library calls; non-trivial = (A) receivers of a text with a multi-byte codepoint whose resource has milestones or annotated positions in the index, (B) annotated stores over a text with a multi-byte codepoint, (C) states with a removed and a live annotation".into();
+    cov.extra.insert("space".into(), Value::Array(space));
+    cov.assumptions = vec![
+        "a position or byte offset beyond the end of a sub-selection counts as beyond the text of that receiver (the conversion functions on selections are documented as relative to the selection): Err is required; such cases carry the position class beyond-selection so that they can be told apart from positions beyond the resource".into(),
+        "in sweep A shrink_to_fit on means: flag set in the configuration and AnnotationStore::shrink_to_fit(true) called after building (the flag itself is only read by the loaders); sweeps B and C exercise the flag through from_str".into(),
+        "sweep A is a union of layers (alphabet, maximal length, maximal number of annotated ranges), each enumerated completely: the full 7-letter alphabet reaches the maximal length without annotations and shorter lengths with one and two annotated ranges; alphabets with one letter per UTF-8 width reach longer lengths with one and two annotated ranges (the conversion code looks at byte widths only, but this is not relied upon: it only decides which layers are affordable); the exact bounds and counts of every layer are listed under space; the reporter's per-signature case count for sweep A counts layers, the number of failing probes per signature is in sweep_A_failing_probes_per_signature".into(),
+        "sweep B and C are differential: behaviour that is wrong under every configuration alike is the subject of C04/C05/C06/C07, not of this check".into(),
+        "PositionMode::Both is documented as positions where a text selection begins or ends; the positions observation therefore must not change with the milestone interval".into(),
+    ];
+    cov
+}
+
+fn known_from(v: &Value) -> Vec<R> {
+    v.as_array()
+        .map(|a| a.iter().map(|p| (p[0].as_u64().unwrap_or(0) as usize, p[1].as_u64().unwrap_or(0) as usize)).collect())
+        .unwrap_or_default()
+}
+
+/// Re-execute one recorded case without the sweep.
+pub fn replay(rep: &Reporter, case: &Value) {
+    let kind = case["kind"].as_str().unwrap_or("");
+    let cfg = Cfg::from_json(&case["config"]);
+    match kind {
+        "conv" => {
+            let text = case["text"].as_str().unwrap_or("").to_string();
+            let known = known_from(&case["known"]);
+            let recv = case["receiver"].as_str().unwrap_or("resource").to_string();
+            let r = (case["range"][0].as_u64().unwrap_or(0) as usize, case["range"][1].as_u64().unwrap_or(0) as usize);
+            let cb = boundaries(&text);
+            println!("replay C12 conversion: text={:?} annotated={:?} {} receiver={} [{}..{})", text, known, cfg.show(), recv, r.0, r.1);
+            println!("  byte offset of every codepoint position by counting: {:?}", cb);
+            let ctx = ACtx { text: &text, cb: &cb, known: &known, cfg, ord: 0, verbose: true };
+            let mut agg = Agg::default();
+            check_store_a(rep, &mut agg, &ctx, Some((recv.as_str(), r)));
+            agg.flush(rep, true);
+        }
+        "knob" => {
+            let text = case["text"].as_str().unwrap_or("").to_string();
+            let known = known_from(&case["known"]);
+            println!("replay C12 knobs: text={:?} annotated={:?}; all 24 configurations against the default (recorded: {} / {})", text, known, cfg.show(), case["observation"]);
+            let cfgs = cfgs_all();
+            let mut empty: HashMap<Cfg, StoreObs> = HashMap::new();
+            for c in &cfgs {
+                empty.insert(*c, observe_cfg(&text, &[], *c).0);
+            }
+            let tb = TextB { text: &text, empty: &empty };
+            if known.is_empty() {
+                compare_b(rep, &tb, &[], &empty, 0, true);
+            } else {
+                let mut cur: HashMap<Cfg, StoreObs> = HashMap::new();
+                for c in &cfgs {
+                    cur.insert(*c, observe_cfg(&text, &known, *c).0);
+                }
+                compare_b(rep, &tb, &known, &cur, 0, true);
+            }
+        }
+        "hist" => {
+            let hist = history_from_json(&case["history"]);
+            println!("replay C12 history under every configuration (recorded: {}):", cfg.show());
+            for o in &hist {
+                println!("   {}", o.short());
+            }
+            let (r, l) = check_history(rep, &hist, 0, true);
+            println!("  {} replays, {} document loads compared with the default configuration", r, l);
+        }
+        _ => println!("replay C12: unknown case kind {:?}", kind),
+    }
+}
